@@ -376,6 +376,13 @@ impl Run<'_> {
                         self.legacy_dropped = true;
                         cov.bump("fault:drop_legacy_request");
                     }
+                    if self.deferred_drop && self.races {
+                        // a second drop before the first one's consequences have run: two actions
+                        // would share one settle
+                        cov.bump("discard:deferred_drop_not_flushed");
+                        self.discarded = true;
+                        return Ok(StepEnd::Stop);
+                    }
                     if self.host.drop_req(key) {
                         self.faults += 1;
                         cov.bump("fault:drop");
